@@ -356,7 +356,7 @@ func runPair(sc *PairScn) (res pairResult) {
 			})
 		}
 		res.Accepts = int(accepts())
-		res.Undisturbed = len(sc.Disturbs) == 0
+		res.Undisturbed = len(sc.Disturbs) == 0 && (sc.OneSidedPhase == "" || sc.OneSidedPhase == "none") && sc.EarlyCut < 0
 		// let delayed notifications (500 ms) arrive
 		time.Sleep(900 * time.Millisecond)
 		nw.L.Add("H", "settled", "", "", 0)
@@ -541,7 +541,8 @@ func monitorNotifications(res pairResult, class func(string)) []hubFinding {
 		// in-progress(4), pin(6), in-progress(4), completed(7); intermediate notifications may be
 		// skipped, so the delivered sequence (stutters collapsed) has to be a subsequence of it
 		if res.Undisturbed && res.Accepts == 1 {
-			master := []string{"1", "3", "2", "4", "5", "4", "6", "4", "7"}
+			// (a request that waits for the local user adds received-request(3) and in-progress(4) after the first 4)
+			master := []string{"1", "3", "2", "4", "3", "4", "5", "4", "6", "4", "7"}
 			var col []string
 			for _, x := range seq {
 				if len(col) == 0 || col[len(col)-1] != x {
